@@ -32,6 +32,9 @@ pub enum Content {
     Real(usize),
     /// Not TZif at all.
     Garbage(u8),
+    /// Starts like the synthetic TZif file `k` but is cut after `len` bytes
+    /// (at least the magic): listed by a directory walk, but not loadable.
+    Truncated { k: u32, len: u8 },
 }
 
 impl Content {
@@ -42,6 +45,11 @@ impl Content {
                 zonegen::REAL_TZIF[i % zonegen::REAL_TZIF.len()].1.to_vec()
             }
             Content::Garbage(b) => vec![b; 64],
+            Content::Truncated { k, len } => {
+                let mut v = zonegen::synth_tzif(k, false);
+                v.truncate((len as usize).clamp(4, v.len() - 1));
+                v
+            }
         }
     }
 }
@@ -197,6 +205,34 @@ impl Disk {
         // Decoy outside the database directory: a lookup of "../x" must
         // never find it.
         fs::write(self.root.join("x"), zonegen::synth_tzif(86_000, false))?;
+        Ok(())
+    }
+
+    /// Entries a real zoneinfo directory also contains and that must never
+    /// show up as zones: text files, hidden files, an empty file, an empty
+    /// directory, a symlink to a directory, a dangling symlink, and a valid
+    /// TZif file whose name is not UTF-8. `mask` selects which ones.
+    pub fn zi_decoys(&mut self, mask: u32) -> std::io::Result<()> {
+        use std::os::unix::ffi::OsStrExt;
+        let zi = self.zi_dir();
+        if mask & 1 != 0 {
+            fs::write(zi.join("README"), b"This is not a time zone.\n")?;
+            fs::write(zi.join("tzdata.zi"), b"# version 2099z\nZ Etc/Nope 0 - Nope\n")?;
+        }
+        if mask & 2 != 0 {
+            fs::write(zi.join(".hidden"), b"x")?;
+            fs::write(zi.join("empty"), b"")?;
+            fs::write(zi.join("TZi"), b"TZi")?;
+        }
+        if mask & 4 != 0 {
+            fs::create_dir_all(zi.join("emptydir/nested"))?;
+            let _ = std::os::unix::fs::symlink(zi.join("emptydir"), zi.join("dirlink"));
+            let _ = std::os::unix::fs::symlink("nowhere", zi.join("dangling"));
+        }
+        if mask & 8 != 0 {
+            let name = std::ffi::OsStr::from_bytes(b"bad\xffname");
+            fs::write(zi.join(name), zonegen::synth_tzif(85_000, false))?;
+        }
         Ok(())
     }
 
